@@ -3,8 +3,12 @@ import OdmlModel.Props.C12
 #print axioms C12.copy_is_faithful
 #print axioms C12.link_adds_only_general
 #print axioms C12.unmerge_restores
-#print axioms C12.clean_after_link_partial
-#print axioms C12.clean_finalize_counterexample
+#print axioms C12.clean_after_link
+#print axioms C12.clean_finalize_restores
+#print axioms C12.filled_definition_taken_back
+#print axioms C12.clean_keeps_user_edit
+#print axioms C12.unmerge_notMerged
+#print axioms C12.clean_restores_attrs_general
 #print axioms C12.cycle_stable
 #print axioms C12.cleanSec_noLinks
 #print axioms C12.clean_sec_restores
